@@ -14,6 +14,7 @@ enum { KM_INT, KM_INT_WIDE, KM_STR, KM_PE, KM_STR_PREFIX, KM_COUNT };
 static const char* KMNAME[KM_COUNT] = { "int", "int-wide", "str", "pelem", "str-prefix-chains" };
 
 static int kmode, U;
+static long case_serial;
 static var K[MAXU];
 static int present[MAXU];
 static int64_t val[MAXU];
@@ -194,7 +195,26 @@ static void classify_insert(var tree, int id) {
 
 /* ---------- behavioural oracle ---------- */
 
-static int64_t value_of(var v) { return ((struct Int*)v)->val; }
+/* values are Ints, or (every other case) 40-byte plain records: a node then carries a value five times as wide as an
+   Int key, and every byte of it must survive set, update, assign, copy and the payload moves of a removal */
+struct WideV { int64_t v, nv, v3; unsigned char pad[16]; };
+static var WideV;
+static int wide_vals;
+static var val_type_of_case(void) { return wide_vals ? WideV : Int; }
+static var mk_val(int64_t v) {
+  static _Alignas(16) char buf[sizeof(struct Header) + sizeof(struct WideV)];
+  if (!wide_vals) { struct Int* i = header_init(buf, Int, AllocStack); i->val = v; return i; }
+  struct WideV* w = header_init(buf, WideV, AllocStack);
+  w->v = v; w->nv = ~v; w->v3 = v * 3; memset(w->pad, 0x5A ^ (int)(v & 0xF), sizeof w->pad);
+  return w;
+}
+static int64_t value_of(var x) {
+  if (!wide_vals) { return ((struct Int*)x)->val; }
+  struct WideV* w = x;
+  if (w->nv != ~w->v || w->v3 != w->v * 3) { return INT64_MIN; }
+  for (size_t i = 0; i < sizeof w->pad; i++) { if (w->pad[i] != (unsigned char)(0x5A ^ (int)(w->v & 0xF))) { return INT64_MIN + 1; } }
+  return w->v;
+}
 static int order[MAXU];
 
 static void check_against(var tree, const int* pres, const int64_t* vals, int n, const char* after, const char* who) {
@@ -270,7 +290,7 @@ static void do_set(int id) {
   if (!present[id]) { classify_insert(T, id); vh_count("set_fresh"); } else { vh_count("set_update"); }
   snprintf(opd, sizeof opd, "set(k%d,%" PRId64 ")", id, v);
   vh_op("%s", opd);
-  VH_CATCH(set(T, K[id], $I(v)), exc);
+  VH_CATCH(set(T, K[id], mk_val(v)), exc);
   if (exc) { vh_violation("C03:model:set-raised", "%s raised %s", opd, vh_exc_name(exc)); }
   if (!present[id]) { present[id] = 1; nmodel++; }
   val[id] = v;
@@ -346,7 +366,7 @@ static void random_ops(vh_rng* r, int nops, int wset) {
       vh_count("resize_0");
     } else if (roll < wset + 43) {
       int from_table = vh_chance(r, 40);
-      var src = new_with(from_table ? Table : Tree, tuple(key_type_of_mode(), Int));
+      var src = new_with(from_table ? Table : Tree, tuple(key_type_of_mode(), val_type_of_case()));
       static int p2[MAXU]; static int64_t v2[MAXU];
       int n2 = 0;
       memset(p2, 0, sizeof(int) * (size_t)U);
@@ -354,7 +374,7 @@ static void random_ops(vh_rng* r, int nops, int wset) {
       for (int i = 0; i < want; i++) {
         int id = (int)vh_below(r, (uint64_t)U);
         int64_t v = ++version;
-        set(src, K[id], $I(v));
+        set(src, K[id], mk_val(v));
         if (!p2[id]) { p2[id] = 1; n2++; }
         v2[id] = v;
       }
@@ -380,7 +400,7 @@ static void random_ops(vh_rng* r, int nops, int wset) {
       for (int k = 0; k < 3; k++) {
         int id = (int)vh_below(r, (uint64_t)U);
         if (p2[id] && vh_chance(r, 50)) { rem(c, K[id]); p2[id] = 0; n2--; }
-        else { int64_t v = ++version; set(c, K[id], $I(v)); if (!p2[id]) { p2[id] = 1; n2++; } v2[id] = v; }
+        else { int64_t v = ++version; set(c, K[id], mk_val(v)); if (!p2[id]) { p2[id] = 1; n2++; } v2[id] = v; }
       }
       check_against(c, p2, v2, n2, "copy mutated", "copy");
       whitebox(c, "copy mutated");
@@ -393,11 +413,13 @@ static void random_ops(vh_rng* r, int nops, int wset) {
 
 static void run_tree_case(vh_rng* r, int mode, int universe, int pattern, int nops) {
   kmode = mode; U = universe;
+  wide_vals = (int)(case_serial++ & 1);
+  if (wide_vals) { vh_count("trees_with_values_wider_than_keys"); }
   int64_t live0 = pe.live;
   make_keys();
   memset(present, 0, sizeof present); nmodel = 0; version = 0;
   /* T lives in static storage, which the collector does not scan: it is allocated as a root */
-  T = new_root_with(Tree, tuple(key_type_of_mode(), Int));
+  T = new_root_with(Tree, tuple(key_type_of_mode(), val_type_of_case()));
   snprintf(opd, sizeof opd, "construction");
   vh_op("tree<%s> U=%d pattern=%d ops=%d", KMNAME[mode], U, pattern, nops);
   verify();
@@ -463,6 +485,7 @@ static void fixed(void) {
 int main(int argc, char** argv) {
   probes_init();
   pe_prop = "C03";
+  WideV = new_root(Type, $S("WideV"), $I(sizeof(struct WideV)));
   big_cases = getenv("VH_BIG") != NULL;
   return vh_run(argc, argv, "tree", fixed, case_random);
 }
